@@ -2,6 +2,8 @@
 #pragma once
 #include "drv_common.h"
 #include "cmap_sweep.h"
+#include "lz4ref.h"
+#include "inc/Decompressor.h"
 
 // 'M' u32 fontid u32 only(0xFFFFFFFE = all)  -> sweep summary
 inline std::string cmd_cmap(Reader &rd, std::map<uint32_t, std::vector<uint8_t>> &fonts) {
@@ -14,7 +16,26 @@ inline std::string cmd_cmap(Reader &rd, std::map<uint32_t, std::vector<uint8_t>>
     return sw.json();
 }
 
+// 'L' u32 out_size, bytes in -> {"r":.., "out":hex (first max(r,0) bytes), "canary":1 if bytes after out_size untouched}
+// Input and output live in exact-size heap blocks: a read outside the input or a write outside the announced
+// output size is an ASan report.
+inline std::string cmd_lz4(Reader &rd) {
+    uint32_t out_size = rd.u32();
+    std::vector<uint8_t> in = rd.bytes();
+    if (rd.bad || out_size > (64u << 20)) return "{\"error\":\"bad lz4 request\"}";
+    Exact ib(in);
+    uint8_t *ob = static_cast<uint8_t *>(malloc(out_size ? out_size : 1));
+    memset(ob, 0xA5, out_size ? out_size : 1);
+    int r = lz4::decompress(ib.p, ib.n, ob, out_size);
+    std::string s = "{\"r\":" + std::to_string(r);
+    if (r > 0 && size_t(r) <= out_size) s += ",\"out\":" + jhex(ob, size_t(r));
+    s += "}";
+    free(ob);
+    return s;
+}
+
 inline std::string dispatch_components(uint8_t cmd, Reader &rd, std::map<uint32_t, std::vector<uint8_t>> &fonts) {
     if (cmd == 'M') return cmd_cmap(rd, fonts);
+    if (cmd == 'L') return cmd_lz4(rd);
     return "";
 }
